@@ -143,7 +143,7 @@ PLANS = {
     ),
     'C17': dict(
         oracle='C17', level='exploration',
-        profiles=[('flags', 6)], curated=[], configs=ALLCFG,
+        profiles=[('flags', 3), ('flags_deep', 2), ('policy_after_action', 1), ('policy_before', 1)], curated=[], configs=ALLCFG,
         cp=dict(max_ops=25, kinds=['P', 'P', 'P', 'P', 'T'], scripts={'b': True}, auto_probe=True),
         examples=(300, 2500), floor=(30, 300),
         rule='Generated histories on machines with user flags on simple states, submachine states and substates; probe of every '
